@@ -210,7 +210,7 @@ def diff_path(a, b, path=""):
     if a == b:
         return None
     if isinstance(a, tuple) and isinstance(b, tuple) and len(a) == len(b) and a and a[0] in ("V", "T") and a[0] == b[0]:
-        labels = {"V": ["", "elements", "name", "schema"], "T": ["", "column_names", "columns", "len"]}[a[0]]
+        labels = {"V": ["", "elements", "name", "schema", "values-by-name"], "T": ["", "column_names", "columns", "len"]}[a[0]]
         for i in range(1, len(a)):
             if a[i] != b[i]:
                 if labels[i] in ("elements", "columns") and isinstance(a[i], tuple) and isinstance(b[i], tuple) and len(a[i]) == len(b[i]):
@@ -225,6 +225,8 @@ def diff_path(a, b, path=""):
 def what_changed(a, b):
     """coarse classification of a snapshot difference: contents / name / dtype / shape"""
     p = diff_path(a, b) or ""
+    if "values-by-name" in p:
+        return "name-resolution"
     if "name" in p:
         return "name"
     if "schema" in p:
